@@ -645,6 +645,7 @@ func lossyConversions(fset *token.FileSet, f *ast.File, info *types.Info) []type
 func checkWorldConversions(c *Ctx, rule string) {
 	c.worldInspect = lossyConversions
 	defer func() { c.worldInspect = nil }()
-	checkShapeWorldsSel(c, rule, func(ws worldSpec) bool { return ws.Name == "int64_encoding=NUMBER" },
+	// quick: the integer codecs; thorough: every codec world (nullable, timestamp, bytes, flatten … for every shape)
+	checkShapeWorldsSel(c, rule, func(ws worldSpec) bool { return c.Thorough() || ws.Name == "int64_encoding=NUMBER" },
 		func(fd typeFinding) bool { return strings.HasPrefix(fd.Msg, "lossy conversion") }, "converts the field's value without loss")
 }
